@@ -36,6 +36,8 @@ func runC18(c *Ctx) {
 		return
 	}
 	info := pk.TypesInfo
+	// a cancelled element is skipped, Poll does not return for it
+	checkCancelArmNeverReturns(r, p, pkg, "Queue", "Poll")
 	// the queue and the executor are built with options.Apply(obj, opts, init): the init functions read
 	// what the options configured (maximum size, worker count)
 	checkOptionsApplyOrder(r, p)
